@@ -71,8 +71,9 @@ Bind == /\ IsEvent("op") /\ Ev.op = "bind" /\ expect = NoExp
 Connect == /\ IsEvent("op") /\ Ev.op = "connect" /\ expect = NoExp /\ socks[Ev.s].typ = "udp"
            /\ IF Ev.err = ""
               THEN socks' = [socks EXCEPT ![Ev.s].st = "conn", ![Ev.s].laddr = Ev.laddr, ![Ev.s].lport = Ev.lport,
-                                          ![Ev.s].raddr = Ev.addr, ![Ev.s].rport = Ev.port,
-                                          ![Ev.s].nets = IF socks[Ev.s].v = 4 THEN {4} ELSE {6},
+                                          \* (connecting a v6 socket to a v4-mapped address makes it an IPv4 socket: eaddr)
+                                          ![Ev.s].raddr = Fld(Ev, "eaddr", Ev.addr), ![Ev.s].rport = Ev.port,
+                                          ![Ev.s].nets = IF socks[Ev.s].v = 4 \/ "eaddr" \in DOMAIN Ev THEN {4} ELSE {6},
                                           ![Ev.s].holds = TRUE,
                                           ![Ev.s].haddr = IF socks[Ev.s].holds THEN socks[Ev.s].haddr ELSE Ev.laddr,
                                           ![Ev.s].hport = IF socks[Ev.s].holds THEN socks[Ev.s].hport ELSE Ev.lport,
@@ -96,7 +97,8 @@ AutoBind(s, lp) == [socks EXCEPT ![s].st = "bound", ![s].lport = lp, ![s].nets =
 Write == /\ IsEvent("op") /\ Ev.op = "write" /\ expect = NoExp
          /\ LET sk == socks[Ev.s]
                 hasTo == "to" \in DOMAIN Ev /\ Ev.to # "null"
-                daddr == IF "to" \in DOMAIN Ev THEN Ev.to.addr ELSE sk.raddr
+                \* (a v4-mapped IPv6 destination travels over IPv4 to the embedded address: eaddr)
+                daddr == IF "to" \in DOMAIN Ev THEN Fld(Ev.to, "eaddr", Ev.to.addr) ELSE sk.raddr
                 dport == IF "to" \in DOMAIN Ev THEN Ev.to.port ELSE sk.rport
             IN IF Ev.err = ""
                THEN /\ Len(pemit) = 1
